@@ -145,6 +145,9 @@ func genVCs(w *World, db *ContractDB, ct *Contract) (res *FnResult) {
 	for k, r := range f.rets {
 		retConds = append(retConds, r.cond)
 		penv := f.specEnv(r.st)
+		if r.block != nil {
+			f.localsAt(r.block, penv)
+		}
 		penv.pkg = ct.Pkg
 		penv.old = entry
 		penv.lock = f.lockSt
@@ -187,6 +190,17 @@ func genVCs(w *World, db *ContractDB, ct *Contract) (res *FnResult) {
 	f.addAxioms()
 	if e.declared["ptrtype"] {
 		f.ptrTypeFacts()
+	}
+	for i, ra := range db.rawAxioms {
+		want := false
+		for _, g := range ct.Use {
+			if hasTag(ra.Tags, g) {
+				want = true
+			}
+		}
+		if want {
+			e.addDecl(fmt.Sprintf("rawaxiom@%d", i), "(assert "+ra.Text+")")
+		}
 	}
 	var kept []item
 	for _, it := range e.items {
